@@ -17,7 +17,7 @@ use rt::tok::{self, Probe};
 use rt::{sim, viol};
 use triomphe::{Arc, ArcBorrow, ArcUnion, HeaderSlice, OffsetArc, UniqueArc};
 
-use crate::hist_sized::{counts, data_addr, peek, Kind, SizedPayload, H};
+use crate::hist_sized::{counts, data_addr, peek, with_ref, Kind, SizedPayload, H};
 
 pub struct SendH<P: SizedPayload>(pub H<P>);
 unsafe impl<P: SizedPayload> Send for SendH<P> {}
@@ -38,6 +38,8 @@ pub enum SOp {
     Unwrap,
     /// clone through a shared borrow of a handle that other threads clone from concurrently
     CloneShared,
+    /// update the value through a shared reference (payloads with interior mutability only)
+    Bump,
 }
 
 #[derive(Clone, Debug)]
@@ -52,7 +54,7 @@ pub fn sprofile(prop: &str) -> SProfile {
     match prop {
         "C03" => SProfile { name: "poll-unique-then-write", ops: vec![(Read, 5), (Clone, 3), (Drop, 5), (Convert, 1), (Count, 1), (Send, 2), (Recv, 2), (PollWrite, 7), (MakeMut, 4)], rule: "C03" },
         "C08" => SProfile { name: "make_mut-vs-readers", ops: vec![(Read, 6), (Clone, 3), (Drop, 4), (Convert, 1), (Send, 1), (Recv, 1), (MakeMut, 8)], rule: "C08" },
-        "C09" => SProfile { name: "racing-unwrap", ops: vec![(Read, 4), (Clone, 2), (CloneShared, 1), (Drop, 4), (Convert, 1), (Send, 1), (Recv, 1), (Unwrap, 9)], rule: "C09" },
+        "C09" => SProfile { name: "racing-unwrap", ops: vec![(Read, 4), (Clone, 2), (CloneShared, 1), (Drop, 4), (Convert, 1), (Send, 1), (Recv, 1), (Unwrap, 9), (Bump, 4)], rule: "C09" },
         _ => SProfile { name: "clone-read-drop", ops: vec![(Read, 6), (Clone, 4), (CloneShared, 4), (Drop, 6), (Convert, 3), (Count, 2), (Send, 3), (Recv, 3)], rule: "C02" },
     }
 }
@@ -103,6 +105,8 @@ struct Shared<P: SizedPayload> {
     /// handles owned by thread 0 for the whole run; the threads clone from them through `&`
     roots: Vec<SendH<P>>,
     mail: Mutex<HashMap<u64, SendH<P>>>,
+    /// value address -> the value every thread would read now (threads run one at a time)
+    shadow: Mutex<HashMap<usize, u64>>,
     next_token: Mutex<u64>,
     facts: Mutex<Vec<ThreadFacts>>,
     log: Mutex<Vec<String>>,
@@ -207,7 +211,7 @@ impl<P: SizedPayload> Local<P> {
         let addr = data_addr(h);
         let p = peek(h);
         self.facts.reads += 1;
-        if !P::ZST && p.ok {
+        if !P::ZST && !P::INTERIOR_MUT && p.ok {
             match self.seen.get(&addr) {
                 Some(&v) if v != p.val => {
                     viol::report(
@@ -262,6 +266,12 @@ fn run_thread<P: SizedPayload>(mut l: Local<P>, ops: Vec<(SOp, u8, u8)>, sh: Std
         }
         match op {
             SOp::CloneShared => {}
+            SOp::Bump => {
+                let addr = data_addr(&l.pool[i]);
+                if let Some(Some(v)) = with_ref(&l.pool[i], |p| p.bump()) {
+                    sh.shadow.lock().unwrap().insert(addr, v);
+                }
+            }
             SOp::Read => l.read(i),
             SOp::Clone => {
                 if l.pool.len() < 4 {
@@ -337,6 +347,7 @@ fn run_thread<P: SizedPayload>(mut l: Local<P>, ops: Vec<(SOp, u8, u8)>, sh: Std
                 };
                 if wrote {
                     l.seen.insert(addr, v);
+                    sh.shadow.lock().unwrap().insert(addr, v);
                     l.facts.poll_success_after_other_read = true;
                 }
             }
@@ -370,6 +381,7 @@ fn run_thread<P: SizedPayload>(mut l: Local<P>, ops: Vec<(SOp, u8, u8)>, sh: Std
                         l.forget_if_gone(before);
                     }
                     l.seen.insert(after, v);
+                    sh.shadow.lock().unwrap().insert(after, v);
                 }
             }
             SOp::Unwrap => {
@@ -381,7 +393,11 @@ fn run_thread<P: SizedPayload>(mut l: Local<P>, ops: Vec<(SOp, u8, u8)>, sh: Std
                         match pick(b, 4) {
                             0 => match Arc::try_unwrap(a) {
                                 Ok(v) => {
-                                    let _ = v.peekp();
+                                    let got = v.peekp().val;
+                                    let cur = sh.shadow.lock().unwrap().get(&addr).copied();
+                                    if !P::ZST && cur.is_some() && cur != Some(got) {
+                                        viol::report(&["C09"], "S.stale-value-moved-out", format!("thread {}: try_unwrap handed out the value {} but the shared value was {} when sole ownership was established (an update made through another handle before it was released is missing)", l.tid, got, cur.unwrap()));
+                                    }
                                     l.facts.unwrap_success += 1;
                                     l.outs.push(v);
                                 }
@@ -398,7 +414,11 @@ fn run_thread<P: SizedPayload>(mut l: Local<P>, ops: Vec<(SOp, u8, u8)>, sh: Std
                                 Ok(u) => {
                                     l.facts.unwrap_success += 1;
                                     let v = UniqueArc::into_inner(u);
-                                    let _ = v.peekp();
+                                    let got = v.peekp().val;
+                                    let cur = sh.shadow.lock().unwrap().get(&addr).copied();
+                                    if !P::ZST && cur.is_some() && cur != Some(got) {
+                                        viol::report(&["C09"], "S.stale-value-moved-out", format!("thread {}: try_from + into_inner handed out the value {} but the shared value was {}", l.tid, got, cur.unwrap()));
+                                    }
                                     l.outs.push(v);
                                 }
                                 Err(a) => l.pool.push(H::Arc(a)),
@@ -454,6 +474,7 @@ impl<P: SizedPayload> Engine for SchedEngine<P> {
         let sh = StdArc::new(Shared::<P> {
             roots: shared_roots,
             mail: Mutex::new(HashMap::new()),
+            shadow: Mutex::new(roots.iter().map(|r| (&**r as *const P as usize, r.peekp().val)).collect()),
             next_token: Mutex::new(0),
             facts: Mutex::new((0..=nthreads).map(|_| ThreadFacts::default()).collect()),
             log: Mutex::new(vec![]),
